@@ -26,12 +26,16 @@ impl InstructionGenerator {
 
         // if true, run statements and jump out
         self.visit(if_block.statements);
+        // to be able to resume after an error at the last statement of the block
+        self.mark_statement_address();
         self.jump("end-if", pos);
 
         for i in 0..else_if_blocks.len() {
             let else_if_block = else_if_blocks[i].clone();
             self.label(&format!("else-if-{}", i), pos);
 
+            // the condition is what RESUME re-evaluates when it fails
+            self.mark_statement_address();
             // evaluate condition into A
             self.generate_expression_instructions(else_if_block.condition);
 
@@ -47,6 +51,8 @@ impl InstructionGenerator {
 
             // if true, run statements and jump out
             self.visit(else_if_block.statements);
+            // to be able to resume after an error at the last statement of the block
+            self.mark_statement_address();
             self.jump("end-if", pos);
         }
 
